@@ -25,6 +25,8 @@ type SV struct {
 	tname   types.Type     // a type used as a value (conversion target / typeis argument)
 	all     bool           // the [*] index marker
 	wlog    bool           // the emission log of a writer (assigns location)
+	greg    *regInfo       // ghost variable location: register
+	gidx    *Term          // ghost variable location: index
 }
 
 type evalEnv struct {
@@ -761,6 +763,17 @@ func (env *evalEnv) ghostCall(g *GhostFunc, v *ast.CallExpr) SV {
 	rt := genv.typeFromTextGeneric(g.result, SV{})
 	if rt == nil {
 		env.fail("ghost %s: cannot resolve result type %s", g.name, g.result)
+	}
+	if g.isVar {
+		if len(ts) != 1 {
+			env.fail("ghost var %s: exactly one index argument is supported", g.name)
+		}
+		r := e.ghostReg(g.name, sorts[0], e.sortOf(rt), rt)
+		v := tb.Select(e.reg(env.st, r), ts[0])
+		if !v.bound {
+			e.assumeWF(tb.True(), rt, v)
+		}
+		return SV{t: v, typ: rt, greg: r, gidx: ts[0]}
 	}
 	r := tb.Func("ghost_"+g.name, sorts, e.sortOf(rt), ts...)
 	if !r.bound {
